@@ -788,6 +788,9 @@ class VBSClusteringManager:
             # Extract radius from circular bounding box if present
             bbox = vci.get("clusterBoundingBoxShape")
             radius: Optional[float] = None
+            if isinstance(bbox, tuple):
+                # The decoder returns a CHOICE as an (alternative, value) pair.
+                bbox = {bbox[0]: bbox[1]}
             if bbox and "circular" in bbox:
                 radius = float(bbox["circular"].get("radius", vam_constants.MAX_CLUSTER_DISTANCE))
 
